@@ -28,13 +28,14 @@ Dicts == {DictF(NoF, NoF), DictF(Sc("string"), Sc("int")), DictF(NoF, ListF(Sc("
           DictF(Sc("string"), NoF), DictF(Sc("int"), DictF(Sc("string"), Sc("float"))),
           DictF(Sc("hostname"), Sc("challenge"))}
 Nested == {SchemaF(<<>>),
-           SchemaF(<< <<"x", Sc("int")>> >>),
+           SchemaF(<< <<"x", Sc("int")>>, <<"vs", VSetterF>> >>),
            SchemaF(<< <<"x", Sc("int")>>, <<"hello", MethodF(S1)>>,
                       <<"deep", SchemaF(<< <<"y", Sc("string")>>, <<"w", VirtualF>> >>)>> >>)}
 CTypes == {CTypeF("Inner", << <<"q", Sc("int")>> >>),
-           CTypeF("Inner", << <<"q", Sc("int")>>, <<"v", VirtualF>>, <<"hello", MethodF(S1)>>,
+           CTypeF("Inner", << <<"q", Sc("int")>>, <<"v", VirtualF>>, <<"vs", VSetterF>>, <<"hello", MethodF(S1)>>,
                               <<"sub", SchemaF(<< <<"y", Sc("string")>> >>)>> >>)}
 FieldVariants == Scalars \cup Lists \cup Dicts \cup Nested \cup CTypes
+Virtuals == {VirtualF, VSetterF}
 
 ---------------------------------------------------------------------------
 (* signatures: shape x annotation pattern x return annotation *)
@@ -82,18 +83,27 @@ SmallSigs == {S0, S1,
 
 ---------------------------------------------------------------------------
 (* schemas *)
-Root(fs) == SchemaF(fs)
+Root(fs)    == [kind |-> "schema", fields |-> fs, dynamic |-> FALSE]
+DynRoot(fs) == [kind |-> "schema", fields |-> fs, dynamic |-> TRUE]
 
-FamA == {Root(<<>>), Root(<< <<"v", VirtualF>> >>)} \cup {Root(<< <<"a", f>> >>) : f \in FieldVariants}
-FamB == {Root(<< <<"a", f>>, <<"v", VirtualF>>, <<"m", MethodF(s)>>, <<"b", g>> >>) :
-            f \in FieldVariants,
+FamA == {Root(<<>>)} \cup {Root(<< <<"v", vf>> >>) : vf \in Virtuals}
+        \cup {Root(<< <<"a", f>> >>) : f \in FieldVariants}
+FamB == {Root(<< <<"a", f>>, <<"v", vf>>, <<"m", MethodF(s)>>, <<"b", g>> >>) :
+            f \in FieldVariants, vf \in Virtuals,
             s \in (IF Big THEN SmallSigs ELSE {S1}),
             g \in (IF Big THEN {Sc("int"), ListF(ItemType), Sc("secure")} ELSE {Sc("int")})}
 FamC == {Root(<< <<"a", Sc("string")>>, <<"m", MethodF(s)>> >>) : s \in GridSigs \cup UnionSigs}
 FamD == {Root(<< <<"m", MethodF(s1)>>, <<"v", VirtualF>>, <<"n", MethodF(s2)>>, <<"a", Sc("bool")>> >>) :
             s1 \in SmallSigs, s2 \in SmallSigs}
 
-Family == FamA \cup FamB \cup FamC \cup FamD
+\* dynamic schemas: a configuration gains a field at run time, then GenStub(config)
+FamE == {DynRoot(fs) : fs \in {<<>>,
+                               << <<"a", Sc("string")>> >>,
+                               << <<"a", Sc("int")>>, <<"v", VirtualF>>, <<"vs", VSetterF>>, <<"m", MethodF(S1)>> >>,
+                               << <<"a", AppModeF(TRUE)>>, <<"b", ListF(ItemType)>>, <<"sub", SchemaF(<< <<"x", Sc("int")>> >>)>> >>}
+                    \cup (IF Big THEN {<< <<"a", f>>, <<"vs", VSetterF>> >> : f \in FieldVariants} ELSE {})}
+
+Family == FamA \cup FamB \cup FamC \cup FamD \cup FamE
 FamilySeq == SetToSeq(Family)
 
 ASSUME \A s \in Family : SchemaWF(s)
@@ -103,12 +113,13 @@ MCInit == \E i \in DOMAIN FamilySeq : sid = i /\ InitWith(FamilySeq[i])
 MCNext == Next /\ UNCHANGED sid
 MCView == <<sid, heap, stdout>>
 
-MCSt   == [sid |-> sid, heap |-> heap, stdout |-> stdout]
+MCSt   == [sid |-> sid] @@ St
 Export == PrintT(<<"EDGE", ToJson([from |-> MCSt, ev |-> ev', to |-> MCSt'])>>)
 PInit  == (TLCGet("level") = 1) => PrintT(<<"INIT", ToJson(MCSt)>>)
 \* the mirror's annotation strings, once per schema (drift information)
 PTypes == (TLCGet("level") = 1) => PrintT(<<"TYPES", ToJson([sid |-> sid, types |-> StubTypes(schema)])>>)
 
-C20_ReturnedMC     == [][ev'.op = "GenStub" => ev'.out = "ok" /\ P_Valid(ev'.res) /\ P_Complete(schema, ev'.res)]_mcvars
+C20_ReturnedMC     == [][ev'.op = "GenStub" => ev'.out = "ok" /\ P_Valid(ev'.res)
+                                                /\ P_Complete(schema, ev'.res, FreeKeys(ev'.target, ev'.c))]_mcvars
 C20_NoSideEffectMC == [][ev'.op = "GenStub" => (schema' = schema /\ heap' = heap /\ stdout' = stdout)]_mcvars
 ====
